@@ -1,13 +1,507 @@
 package main
 
-// Witness-removal controls (thorough tier) — see controls_impl.go once built.
+// Witness-removal controls (thorough tier): for every discharged obligation
+// whose witness is a guard (`if` statement or switch case), the checker
+// builds an in-memory variant of /repo (packages.Config.Overlay) in which
+// that guard's body is emptied, requires it to type-check, re-runs the
+// property's rules and requires the obligations that cited the guard to stop
+// being discharged. This shows on every thorough run that each verdict
+// depends on the code it cites; a rule none of whose controls flips is
+// vacuous and fails the check.
 
-func (c *controlsEvidence) isNil() bool { return c == nil }
+import (
+	"bytes"
+	"fmt"
+	"go/ast"
+	"go/format"
+	"go/parser"
+	"go/token"
+	"go/types"
+	"math/rand"
+	"os"
+	"path/filepath"
+	"sort"
+	"strings"
+	"sync"
+)
 
-type controlsState struct{}
+type controlSite struct {
+	file string // absolute path
+	line int
+	keys map[string]bool // obligation keys citing this guard
+	rule map[string]bool
+}
 
-var _ = controlsState{}
+// neutralise parses the file and empties the body of the innermost
+// if-statement / case clause whose condition lies on the given line.
+func neutralise(path string, line int) ([]byte, string, error) {
+	fset := token.NewFileSet()
+	f, err := parser.ParseFile(fset, path, nil, parser.ParseComments)
+	if err != nil {
+		return nil, "", err
+	}
+	var target ast.Node
+	ast.Inspect(f, func(n ast.Node) bool {
+		switch x := n.(type) {
+		case *ast.IfStmt:
+			if x.Cond != nil {
+				s, e := fset.Position(x.Cond.Pos()).Line, fset.Position(x.Cond.End()).Line
+				if s <= line && line <= e {
+					target = x // innermost wins (visited later)
+				}
+			}
+		case *ast.CaseClause:
+			for _, c := range x.List {
+				s, e := fset.Position(c.Pos()).Line, fset.Position(c.End()).Line
+				if s <= line && line <= e {
+					target = x
+				}
+			}
+		}
+		return true
+	})
+	if target == nil {
+		// the witness may point into the guard's body (its return statement):
+		// take the innermost if/case whose body contains the line
+		ast.Inspect(f, func(n ast.Node) bool {
+			switch x := n.(type) {
+			case *ast.IfStmt:
+				s, e := fset.Position(x.Body.Pos()).Line, fset.Position(x.Body.End()).Line
+				if s <= line && line <= e {
+					target = x
+				}
+			case *ast.CaseClause:
+				if len(x.Body) > 0 {
+					s, e := fset.Position(x.Body[0].Pos()).Line, fset.Position(x.Body[len(x.Body)-1].End()).Line
+					if s <= line && line <= e {
+						target = x
+					}
+				}
+			}
+			return true
+		})
+	}
+	if target == nil {
+		return nil, "", fmt.Errorf("no if/case at %s:%d", path, line)
+	}
+	desc := ""
+	switch x := target.(type) {
+	case *ast.IfStmt:
+		if len(x.Body.List) == 0 {
+			return nil, "", fmt.Errorf("guard body already empty")
+		}
+		x.Body.List = nil
+		desc = "if-body emptied"
+	case *ast.CaseClause:
+		if len(x.Body) == 0 {
+			return nil, "", fmt.Errorf("case body already empty")
+		}
+		x.Body = nil
+		desc = "case body emptied"
+	}
+	var buf bytes.Buffer
+	if err := format.Node(&buf, fset, f); err != nil {
+		return nil, "", err
+	}
+	return buf.Bytes(), desc, nil
+}
 
 func runControls(repo, verif, id string, base *Result) *controlsEvidence {
-	return nil
+	ev := &controlsEvidence{}
+	if base == nil || base.prog == nil {
+		return ev
+	}
+	sites := map[string]*controlSite{}
+	for _, o := range base.Obs {
+		if o.Status != Discharged {
+			continue
+		}
+		for _, w := range o.Witness {
+			if w.Kind != "guard" || w.Pos == "" || w.Pos == "-" {
+				continue
+			}
+			i := strings.LastIndex(w.Pos, ":")
+			if i < 0 {
+				continue
+			}
+			var line int
+			fmt.Sscanf(w.Pos[i+1:], "%d", &line)
+			file := filepath.Join(repo, w.Pos[:i])
+			k := fmt.Sprintf("%s:%d", file, line)
+			s := sites[k]
+			if s == nil {
+				s = &controlSite{file: file, line: line, keys: map[string]bool{}, rule: map[string]bool{}}
+				sites[k] = s
+			}
+			s.keys[o.Key()] = true
+			s.rule[o.Rule] = true
+		}
+	}
+	var list []*controlSite
+	for _, s := range sites {
+		list = append(list, s)
+	}
+	sort.Slice(list, func(i, j int) bool {
+		if list[i].file != list[j].file {
+			return list[i].file < list[j].file
+		}
+		return list[i].line < list[j].line
+	})
+	type outcome struct {
+		site    *controlSite
+		status  string // flipped | redundant | unbuildable
+		detail  string
+	}
+	outs := make([]outcome, len(list))
+	var wg sync.WaitGroup
+	sem := make(chan struct{}, 8)
+	for i, s := range list {
+		wg.Add(1)
+		go func(i int, s *controlSite) {
+			defer wg.Done()
+			sem <- struct{}{}
+			defer func() { <-sem }()
+			rel, _ := filepath.Rel(repo, s.file)
+			src, desc, err := neutralise(s.file, s.line)
+			if err != nil {
+				outs[i] = outcome{s, "unbuildable", fmt.Sprintf("%s:%d: %v", rel, s.line, err)}
+				return
+			}
+			res := runOne(repo, base.prog.Config, map[string][]byte{s.file: src}, id)
+			for _, o := range res.Obs {
+				if o.Rule == "machinery" && o.Subject == "loader" {
+					outs[i] = outcome{s, "unbuildable", fmt.Sprintf("%s:%d (%s): variant does not type-check", rel, s.line, desc)}
+					return
+				}
+			}
+			status := map[string]string{}
+			for _, o := range res.Obs {
+				status[o.Key()] = o.Status
+			}
+			flipped := false
+			for k := range s.keys {
+				if st, ok := status[k]; !ok || st != Discharged {
+					flipped = true
+				}
+			}
+			if flipped {
+				outs[i] = outcome{s, "flipped", fmt.Sprintf("%s:%d (%s)", rel, s.line, desc)}
+			} else {
+				outs[i] = outcome{s, "redundant", fmt.Sprintf("%s:%d (%s): obligations stay discharged (another guard implies the same fact)", rel, s.line, desc)}
+			}
+		}(i, s)
+	}
+	wg.Wait()
+	ruleFlipped := map[string]bool{}
+	ruleBuilt := map[string]bool{}
+	for _, o := range outs {
+		switch o.status {
+		case "unbuildable":
+			ev.Unbuildable++
+			ev.UnbuildableList = append(ev.UnbuildableList, o.detail)
+		case "flipped":
+			ev.Built++
+			ev.Flipped++
+			for ru := range o.site.rule {
+				ruleFlipped[ru] = true
+				ruleBuilt[ru] = true
+			}
+			if len(ev.Samples) < 6 {
+				ev.Samples = append(ev.Samples, "flipped: "+o.detail)
+			}
+		case "redundant":
+			ev.Built++
+			ev.Redundant = append(ev.Redundant, o.detail)
+			for ru := range o.site.rule {
+				ruleBuilt[ru] = true
+			}
+		}
+	}
+	var vacuous []string
+	for ru := range ruleBuilt {
+		if !ruleFlipped[ru] {
+			vacuous = append(vacuous, ru)
+		}
+	}
+	sort.Strings(vacuous)
+	if len(vacuous) > 0 {
+		ev.failed = "rule(s) " + strings.Join(vacuous, ", ") + " cite guards whose removal never changes a verdict: the rule does not depend on the code it cites"
+	}
+	_ = os.Stat
+	return ev
+}
+
+// ---------------------------------------------------------------------------
+// neutralisation sweep: every guard / call statement / field assignment /
+// defer in the functions a property analysed is removed in turn (in memory),
+// and the rules are re-run. The evidence records how many removals each rule
+// detects; removals no rule of the property detects are listed as samples so
+// that coverage gaps are visible. Undetected removals do not fail the check:
+// many statements are irrelevant to a given property.
+
+type sweepSite struct {
+	file string
+	pos  token.Pos
+	line int
+	kind string
+	fn   string
+}
+
+const sweepCap = 400
+
+type SweepEvidence struct {
+	Candidates  int            `json:"candidates"`
+	Sampled     int            `json:"sampled,omitempty"`
+	Built       int            `json:"built"`
+	Unbuildable int            `json:"unbuildable"`
+	Detected    int            `json:"detected"`
+	PerRule     map[string]int `json:"detected_per_rule"`
+	Undetected  []string       `json:"undetected,omitempty"`
+}
+
+// sweepCandidates lists the statements to neutralise in the functions whose
+// names are in want.
+func sweepCandidates(p *Program, want map[string]bool) []sweepSite {
+	var out []sweepSite
+	for _, pk := range p.Pkgs {
+		for _, f := range pk.Syntax {
+			fname := p.Fset.Position(f.Pos()).Filename
+			if isTestFile(fname) {
+				continue
+			}
+			for _, d := range f.Decls {
+				fd, ok := d.(*ast.FuncDecl)
+				if !ok || fd.Body == nil {
+					continue
+				}
+				obj, _ := pk.TypesInfo.Defs[fd.Name].(*types.Func)
+				if obj == nil {
+					continue
+				}
+				fn := p.SSA.FuncValue(obj)
+				if fn == nil {
+					continue
+				}
+				name := fn.String()
+				hit := want[name]
+				if !hit {
+					for _, a := range AnonFuncs(fn) {
+						if want[a.String()] {
+							hit = true
+						}
+					}
+				}
+				if !hit {
+					continue
+				}
+				ast.Inspect(fd.Body, func(n ast.Node) bool {
+					add := func(kind string) {
+						out = append(out, sweepSite{file: fname, pos: n.Pos(), line: p.Fset.Position(n.Pos()).Line, kind: kind, fn: name})
+					}
+					switch x := n.(type) {
+					case *ast.IfStmt:
+						if len(x.Body.List) > 0 {
+							add("if-body")
+						}
+					case *ast.CaseClause:
+						if len(x.Body) > 0 && len(x.List) > 0 {
+							add("case-body")
+						}
+					case *ast.ExprStmt:
+						if _, isCall := x.X.(*ast.CallExpr); isCall {
+							add("call-stmt")
+						}
+					case *ast.AssignStmt:
+						if x.Tok == token.ASSIGN {
+							sel := true
+							for _, l := range x.Lhs {
+								if _, ok := l.(*ast.SelectorExpr); !ok {
+									sel = false
+								}
+							}
+							if sel {
+								add("field-assign")
+							}
+						}
+					case *ast.IncDecStmt:
+						add("incdec")
+					case *ast.DeferStmt:
+						add("defer")
+					}
+					return true
+				})
+			}
+		}
+	}
+	return out
+}
+
+// neutraliseAt rewrites the file with the statement at pos removed/emptied.
+func neutraliseAt(path string, line int, col int, kind string) ([]byte, error) {
+	fset := token.NewFileSet()
+	f, err := parser.ParseFile(fset, path, nil, parser.ParseComments)
+	if err != nil {
+		return nil, err
+	}
+	done := false
+	match := func(n ast.Node) bool {
+		ps := fset.Position(n.Pos())
+		return ps.Line == line && ps.Column == col
+	}
+	// statement lists
+	var fix func(list []ast.Stmt) []ast.Stmt
+	fix = func(list []ast.Stmt) []ast.Stmt {
+		var out []ast.Stmt
+		for _, s := range list {
+			if !done && match(s) {
+				switch x := s.(type) {
+				case *ast.ExprStmt:
+					if kind == "call-stmt" {
+						done = true
+						continue
+					}
+				case *ast.AssignStmt:
+					if kind == "field-assign" {
+						done = true
+						continue
+					}
+				case *ast.IncDecStmt:
+					if kind == "incdec" {
+						done = true
+						continue
+					}
+				case *ast.DeferStmt:
+					if kind == "defer" {
+						done = true
+						continue
+					}
+				case *ast.IfStmt:
+					if kind == "if-body" {
+						x.Body.List = nil
+						done = true
+					}
+				}
+			}
+			out = append(out, s)
+		}
+		return out
+	}
+	ast.Inspect(f, func(n ast.Node) bool {
+		switch x := n.(type) {
+		case *ast.BlockStmt:
+			x.List = fix(x.List)
+		case *ast.CaseClause:
+			if !done && kind == "case-body" && match(x) {
+				x.Body = nil
+				done = true
+			} else {
+				x.Body = fix(x.Body)
+			}
+		case *ast.CommClause:
+			x.Body = fix(x.Body)
+		case *ast.IfStmt:
+			// else-if chains: the nested IfStmt is not in a statement list
+			if !done && kind == "if-body" && match(x) {
+				x.Body.List = nil
+				done = true
+			}
+		}
+		return true
+	})
+	if !done {
+		return nil, fmt.Errorf("statement not found")
+	}
+	var buf bytes.Buffer
+	if err := format.Node(&buf, fset, f); err != nil {
+		return nil, err
+	}
+	return buf.Bytes(), nil
+}
+
+func runSweep(repo, id string, base *Result) *SweepEvidence {
+	ev := &SweepEvidence{PerRule: map[string]int{}}
+	if base == nil || base.prog == nil {
+		return ev
+	}
+	p := base.prog
+	cands := sweepCandidates(p, base.FuncsAnalysed)
+	ev.Candidates = len(cands)
+	// bound the cost: at most sweepCap removals per run, chosen by VERIF_SEED
+	if len(cands) > sweepCap {
+		seed := 1
+		fmt.Sscanf(os.Getenv("VERIF_SEED"), "%d", &seed)
+		rng := rand.New(rand.NewSource(int64(seed)))
+		rng.Shuffle(len(cands), func(i, j int) { cands[i], cands[j] = cands[j], cands[i] })
+		cands = cands[:sweepCap]
+		ev.Sampled = sweepCap
+	}
+	baseStatus := map[string]string{}
+	baseRule := map[string]string{}
+	for _, o := range base.Obs {
+		baseStatus[o.Key()] = o.Status
+		baseRule[o.Key()] = o.Rule
+	}
+	type outc struct {
+		built bool
+		rules map[string]bool
+		desc  string
+	}
+	outs := make([]outc, len(cands))
+	var wg sync.WaitGroup
+	sem := make(chan struct{}, 12)
+	for i, c := range cands {
+		wg.Add(1)
+		go func(i int, c sweepSite) {
+			defer wg.Done()
+			sem <- struct{}{}
+			defer func() { <-sem }()
+			rel, _ := filepath.Rel(repo, c.file)
+			col := p.Fset.Position(c.pos).Column
+			outs[i].desc = fmt.Sprintf("%s:%d %s in %s", rel, c.line, c.kind, c.fn)
+			src, err := neutraliseAt(c.file, c.line, col, c.kind)
+			if err != nil {
+				return
+			}
+			res := runOne(repo, p.Config, map[string][]byte{c.file: src}, id)
+			for _, o := range res.Obs {
+				if o.Rule == "machinery" && o.Subject == "loader" {
+					return
+				}
+			}
+			outs[i].built = true
+			outs[i].rules = map[string]bool{}
+			seen := map[string]bool{}
+			for _, o := range res.Obs {
+				seen[o.Key()] = true
+				if o.Status != Discharged && baseStatus[o.Key()] == Discharged {
+					outs[i].rules[o.Rule] = true
+				}
+				if o.Status != Discharged && baseStatus[o.Key()] == "" {
+					outs[i].rules[o.Rule] = true
+				}
+			}
+			for k, st := range baseStatus {
+				if st == Discharged && !seen[k] {
+					// obligation vanished: counts only if the rule now fails its floor
+				}
+			}
+		}(i, c)
+	}
+	wg.Wait()
+	for _, o := range outs {
+		if !o.built {
+			ev.Unbuildable++
+			continue
+		}
+		ev.Built++
+		if len(o.rules) > 0 {
+			ev.Detected++
+			for ru := range o.rules {
+				ev.PerRule[ru]++
+			}
+		} else if len(ev.Undetected) < 400 {
+			ev.Undetected = append(ev.Undetected, o.desc)
+		}
+	}
+	return ev
 }
